@@ -76,6 +76,21 @@ impl E {
         self.children().into_iter().any(|c| c.any(f))
     }
     /// Replace every `||` by `|` (C09).
+    /// the same expression without any description
+    pub fn without_descriptions(&self) -> E {
+        match self {
+            E::Lit(t, _) => E::Lit(t.clone(), None),
+            E::Ref(_) | E::Cmd(_) => self.clone(),
+            E::Seq(c) => E::Seq(c.iter().map(|x| x.without_descriptions()).collect()),
+            E::Alt(c) => E::Alt(c.iter().map(|x| x.without_descriptions()).collect()),
+            E::Fb(c) => E::Fb(c.iter().map(|x| x.without_descriptions()).collect()),
+            E::Word(c) => E::Word(c.iter().map(|x| x.without_descriptions()).collect()),
+            E::Opt(c) => E::Opt(Box::new(c.without_descriptions())),
+            E::Many(c) => E::Many(Box::new(c.without_descriptions())),
+            E::Descr(c, _) => c.without_descriptions(),
+        }
+    }
+
     pub fn fb_to_alt(&self) -> E {
         match self {
             E::Lit(..) | E::Ref(_) | E::Cmd(_) => self.clone(),
@@ -206,12 +221,14 @@ pub struct Printer {
     pub dots: DotStyle,
     /// extra parentheses around this node id (preorder index) when set (C14)
     pub extra_parens: Option<usize>,
+    /// with `extra_parens` on a described literal: parenthesise the literal only, `(lit) "d"`
+    pub parens_inside_description: bool,
     counter: usize,
 }
 
 impl Printer {
     pub fn new(dots: DotStyle) -> Self {
-        Printer { toks: vec![], dots, extra_parens: None, counter: 0 }
+        Printer { toks: vec![], dots, extra_parens: None, parens_inside_description: false, counter: 0 }
     }
 
     fn push(&mut self, glue: Glue, text: &str, tag: Option<usize>) {
@@ -224,6 +241,23 @@ impl Printer {
         let my_id = self.counter;
         self.counter += 1;
         let extra = self.extra_parens == Some(my_id);
+        if extra && self.parens_inside_description {
+            if let E::Lit(t, Some(d)) = e {
+                // `(lit) "descr"`: a description after a group, printed where a factor is expected
+                let need_outer = min > 3;
+                if need_outer {
+                    self.push(glue, "(", Some(my_id));
+                }
+                self.push(if need_outer { Glue::Opt0 } else { glue }, "(", Some(my_id));
+                self.push(Glue::Opt0, &escape_literal(t, self.dots), None);
+                self.push(Glue::Opt0, ")", None);
+                self.push(Glue::Opt1, &escape_descr(d), None);
+                if need_outer {
+                    self.push(Glue::Opt0, ")", None);
+                }
+                return;
+            }
+        }
         if level(e) < min || extra {
             self.push(glue, "(", Some(my_id));
             self.expr_inner(e, Glue::Opt0, my_id);
